@@ -23,9 +23,52 @@ type modSet struct {
 	alloc  bool
 	maps   bool
 	all    bool // unknown effects: havoc every known heap
+	coarse map[string]bool      // heaps whose written locations are not all known
+	freshW map[string]bool      // heaps written at objects allocated inside the region
+	sites  map[string][]modSite // known write sites per heap
+	cur    *siteCtx             // context for sites found while scanning an inlined callee (nil = top)
+	ptrSorts map[string]bool    // sorts stored through pointers of unknown shape
+	region map[*ssa.BasicBlock]bool
 }
 
-func newModSet() *modSet { return &modSet{locals: map[*ssa.Alloc]bool{}, heaps: map[string]string{}} }
+// modSite: a write whose target can be named by an SSA value of the
+// function being executed (and is therefore evaluable at the loop head if
+// that value is loop-invariant).
+type modSite struct {
+	base ssa.Value // object pointer / slice / *array / pointer cell
+	// contract call site
+	fc    *FuncContract
+	args  []ssa.Value
+	names []string
+	ptypes []types.Type
+	item  Expr
+}
+
+type siteCtx struct{}
+
+func newModSet() *modSet {
+	return &modSet{locals: map[*ssa.Alloc]bool{}, heaps: map[string]string{}, coarse: map[string]bool{}, freshW: map[string]bool{}, sites: map[string][]modSite{}}
+}
+
+func (ms *modSet) addCoarse(name, sort string) {
+	ms.heaps[name] = sort
+	ms.coarse[name] = true
+}
+
+func (ms *modSet) addFresh(name, sort string) {
+	ms.heaps[name] = sort
+	ms.freshW[name] = true
+}
+
+func (ms *modSet) addSite(name, sort string, site modSite) {
+	ms.heaps[name] = sort
+	if ms.cur != nil {
+		// inside an inlined callee the SSA values belong to another function
+		ms.coarse[name] = true
+		return
+	}
+	ms.sites[name] = append(ms.sites[name], site)
+}
 
 // scanMods computes a conservative modified set for the given blocks.
 func (ex *Exec) scanMods(fn *ssa.Function, blocks map[*ssa.BasicBlock]bool, ms *modSet, depth int) {
@@ -41,28 +84,29 @@ func (ex *Exec) scanMods(fn *ssa.Function, blocks map[*ssa.BasicBlock]bool, ms *
 					ms.locals[x] = true
 				} else {
 					ms.alloc = true
-					ex.modsOfType(et, ms)
+					ex.modsOfType(et, ms, true)
 				}
 			case *ssa.Store:
-				ex.modsOfAddr(x.Addr, x.Val.Type(), ms)
+				ex.modsOfAddr(x.Addr, x.Val.Type(), ms, blocks)
 			case *ssa.MapUpdate:
 				ms.maps = true
 			case *ssa.MakeSlice:
 				ms.alloc = true
 				et := x.Type().Underlying().(*types.Slice).Elem()
 				if es, ok := ex.cx.sortOf(et); ok {
-					ms.heaps[contentHeapName(es)] = ex.contentSort(es)
+					ms.addFresh(contentHeapName(es), ex.contentSort(es))
 				} else {
-					ex.modsOfType(et, ms)
+					ex.modsOfType(et, ms, true)
 				}
 			case *ssa.MakeMap, *ssa.MakeClosure, *ssa.MakeInterface:
 				ms.alloc = true
 			case *ssa.Call:
-				ex.modsOfCall(&x.Call, ms, depth)
+				ex.modsOfCall(&x.Call, ms, depth, blocks)
 			case *ssa.Defer:
-				ex.modsOfCall(&x.Call, ms, depth)
+				ex.modsOfCall(&x.Call, ms, depth, blocks)
 			case *ssa.Go:
 				ms.alloc = true
+				ex.modsOfCall(&x.Call, ms, depth, blocks)
 			case *ssa.RunDefers:
 				ms.all = true
 			}
@@ -70,86 +114,119 @@ func (ex *Exec) scanMods(fn *ssa.Function, blocks map[*ssa.BasicBlock]bool, ms *
 	}
 }
 
-func (ex *Exec) modsOfType(t types.Type, ms *modSet) {
+// modsOfType: every heap that holds a part of a value of type t.
+func (ex *Exec) modsOfType(t types.Type, ms *modSet, fresh bool) {
+	add := func(n, s string) {
+		if fresh {
+			ms.addFresh(n, s)
+		} else {
+			ms.addCoarse(n, s)
+		}
+	}
 	switch u := t.Underlying().(type) {
 	case *types.Struct:
 		for i := 0; i < u.NumFields(); i++ {
 			f := u.Field(i)
 			if s, ok := ex.cx.sortOf(f.Type()); ok {
-				ms.heaps[ex.fieldHeapName(f)] = arrSort(SRef, s)
+				add(ex.fieldHeapName(f), arrSort(SRef, s))
 			} else {
-				ex.modsOfType(f.Type(), ms)
+				ex.modsOfType(f.Type(), ms, fresh)
 			}
 		}
 	case *types.Array:
 		if es, ok := ex.cx.sortOf(u.Elem()); ok {
-			ms.heaps[contentHeapName(es)] = ex.contentSort(es)
+			add(contentHeapName(es), ex.contentSort(es))
 		} else {
-			ex.modsOfType(u.Elem(), ms)
+			ex.modsOfType(u.Elem(), ms, fresh)
 		}
 	default:
 		if s, ok := ex.cx.sortOf(t); ok {
-			ms.heaps[cellHeapName(s)] = arrSort(SRef, s)
+			add(cellHeapName(s), arrSort(SRef, s))
 		}
 	}
 }
 
-func (ex *Exec) modsOfAddr(addr ssa.Value, vt types.Type, ms *modSet) {
+func (ex *Exec) modsOfAddr(addr ssa.Value, vt types.Type, ms *modSet, blocks map[*ssa.BasicBlock]bool) {
 	switch a := addr.(type) {
 	case *ssa.Alloc:
 		if ex.isDirect(a) {
 			ms.locals[a] = true
 			return
 		}
-		ex.modsOfType(vt, ms)
+		inRegion := blocks == nil || blocks[a.Block()]
+		if s, ok := ex.cx.sortOf(vt); ok {
+			if inRegion {
+				ms.addFresh(cellHeapName(s), arrSort(SRef, s))
+			} else {
+				ms.addSite(cellHeapName(s), arrSort(SRef, s), modSite{base: a})
+			}
+			return
+		}
+		ex.modsOfType(vt, ms, inRegion)
 	case *ssa.FieldAddr:
 		stt := a.X.Type().Underlying().(*types.Pointer).Elem().Underlying().(*types.Struct)
 		f := stt.Field(a.Field)
 		if s, ok := ex.cx.sortOf(f.Type()); ok {
-			ms.heaps[ex.fieldHeapName(f)] = arrSort(SRef, s)
+			if al, isAlloc := a.X.(*ssa.Alloc); isAlloc && (blocks == nil || blocks[al.Block()]) {
+				ms.addFresh(ex.fieldHeapName(f), arrSort(SRef, s))
+				return
+			}
+			ms.addSite(ex.fieldHeapName(f), arrSort(SRef, s), modSite{base: a.X})
 		} else {
-			ex.modsOfType(f.Type(), ms)
+			ex.modsOfType(f.Type(), ms, false)
 		}
 	case *ssa.IndexAddr:
 		if s, ok := ex.cx.sortOf(vt); ok {
-			ms.heaps[contentHeapName(s)] = ex.contentSort(s)
+			ms.addSite(contentHeapName(s), ex.contentSort(s), modSite{base: a.X})
 		} else {
-			ex.modsOfType(vt, ms)
+			ex.modsOfType(vt, ms, false)
 		}
 	default:
-		// pointer of unknown shape: cell heap and (conservatively) the field heaps of that sort
+		// pointer of unknown shape: its cell, or a field it may designate
 		if s, ok := ex.cx.sortOf(vt); ok {
-			ms.heaps[cellHeapName(s)] = arrSort(SRef, s)
-			if _, isFV := addr.(*ssa.FreeVar); !isFV {
-				ms.all = ms.all || false
+			ms.addSite(cellHeapName(s), arrSort(SRef, s), modSite{base: addr})
+			if ms.ptrSorts == nil {
+				ms.ptrSorts = map[string]bool{}
 			}
+			ms.ptrSorts[s] = true
 		} else {
-			ex.modsOfType(vt, ms)
+			ex.modsOfType(vt, ms, false)
 		}
 	}
 }
 
-func (ex *Exec) modsOfCall(c *ssa.CallCommon, ms *modSet, depth int) {
+func (ex *Exec) sliceArgSite(arg ssa.Value, ms *modSet) {
+	if sl, ok := arg.Type().Underlying().(*types.Slice); ok {
+		if es, ok := ex.cx.sortOf(sl.Elem()); ok {
+			ms.addSite(contentHeapName(es), ex.contentSort(es), modSite{base: arg})
+		} else {
+			ex.modsOfType(sl.Elem(), ms, false)
+		}
+	}
+}
+
+func (ex *Exec) modsOfCall(c *ssa.CallCommon, ms *modSet, depth int, blocks map[*ssa.BasicBlock]bool) {
 	if c.IsInvoke() {
 		fc := ex.ifaceContract(c)
 		if fc == nil {
 			ex.unmodelledMods(c, ms)
 			return
 		}
-		ex.modsOfContract(fc, ms)
+		args := append([]ssa.Value{c.Value}, c.Args...)
+		names := append([]string{"this"}, fc.IfaceParams...)
+		ex.modsOfContract(fc, ms, args, names)
 		return
 	}
 	switch callee := c.Value.(type) {
 	case *ssa.Builtin:
 		switch callee.Name() {
-		case "copy", "append":
-			if len(c.Args) > 0 {
-				if sl, ok := c.Args[0].Type().Underlying().(*types.Slice); ok {
-					if es, ok := ex.cx.sortOf(sl.Elem()); ok {
-						ms.heaps[contentHeapName(es)] = ex.contentSort(es)
-					} else {
-						ex.modsOfType(sl.Elem(), ms)
-					}
+		case "copy":
+			ex.sliceArgSite(c.Args[0], ms)
+		case "append":
+			ex.sliceArgSite(c.Args[0], ms)
+			if sl, ok := c.Args[0].Type().Underlying().(*types.Slice); ok {
+				if es, ok := ex.cx.sortOf(sl.Elem()); ok {
+					ms.addFresh(contentHeapName(es), ex.contentSort(es))
 				}
 			}
 			ms.alloc = true
@@ -158,24 +235,36 @@ func (ex *Exec) modsOfCall(c *ssa.CallCommon, ms *modSet, depth int) {
 		}
 	case *ssa.Function:
 		if _, ok := ex.libModel(callee); ok {
-			ex.libMods(callee, c, ms)
+			ex.libMods(callee, c, ms, blocks)
 			return
 		}
 		if fc := ex.contractOf(callee); fc != nil && !fc.Inline {
-			ex.modsOfContract(fc, ms)
+			var names []string
+			for _, p := range callee.Params {
+				names = append(names, p.Name())
+			}
+			ex.modsOfContract(fc, ms, c.Args, names)
 			return
 		}
-		if ex.shouldInline(callee) && depth < 4 {
-			ex.scanMods(callee, nil, ms, depth+1)
-			// locals of the callee are irrelevant
+		if (ex.shouldInline(callee) || (ex.contractOf(callee) != nil && ex.contractOf(callee).Inline)) && depth < 4 {
+			saved := ms.cur
+			ms.cur = &siteCtx{}
+			sub := newModSet()
+			sub.cur = ms.cur
+			ex.scanMods(callee, nil, sub, depth+1)
+			ms.cur = saved
+			ms.mergeCoarse(sub)
 			return
 		}
 		ex.unmodelledMods(c, ms)
 	case *ssa.MakeClosure:
 		if depth < 4 {
-			ex.scanMods(callee.Fn.(*ssa.Function), nil, ms, depth+1)
-			// captured cells written by the closure
 			fn := callee.Fn.(*ssa.Function)
+			sub := newModSet()
+			sub.cur = &siteCtx{}
+			ex.scanMods(fn, nil, sub, depth+1)
+			ms.mergeCoarse(sub)
+			// captured cells written by the closure
 			for i, fv := range fn.FreeVars {
 				if a, ok := callee.Bindings[i].(*ssa.Alloc); ok && ex.isDirect(a) {
 					for _, r := range *fv.Referrers() {
@@ -193,35 +282,194 @@ func (ex *Exec) modsOfCall(c *ssa.CallCommon, ms *modSet, depth int) {
 	}
 }
 
+// mergeCoarse merges the effects found in an inlined callee (all coarse).
+func (ms *modSet) mergeCoarse(sub *modSet) {
+	for n, s := range sub.heaps {
+		ms.addCoarse(n, s)
+	}
+	ms.alloc = ms.alloc || sub.alloc
+	ms.maps = ms.maps || sub.maps
+	ms.all = ms.all || sub.all
+	for s := range sub.ptrSorts {
+		if ms.ptrSorts == nil {
+			ms.ptrSorts = map[string]bool{}
+		}
+		ms.ptrSorts[s] = true
+	}
+}
+
 // unmodelledMods: trusted-base rule T5 — an unmodelled callee may write the
 // backing arrays of its slice arguments and nothing else that is tracked.
 func (ex *Exec) unmodelledMods(c *ssa.CallCommon, ms *modSet) {
 	for _, a := range c.Args {
-		if sl, ok := a.Type().Underlying().(*types.Slice); ok {
-			if es, ok := ex.cx.sortOf(sl.Elem()); ok {
-				ms.heaps[contentHeapName(es)] = ex.contentSort(es)
-			}
-		}
+		ex.sliceArgSite(a, ms)
 	}
 	ms.alloc = true
 }
 
-func (ex *Exec) modsOfContract(fc *FuncContract, ms *modSet) {
+func (ex *Exec) modsOfContract(fc *FuncContract, ms *modSet, args []ssa.Value, names []string) {
 	ms.alloc = true
 	if !fc.HasModifies {
 		ms.all = true
 		return
 	}
 	for _, m := range fc.Modifies {
-		names := ex.heapsOfLvalue(fc, m)
-		if names == nil {
+		hs := ex.heapsOfLvalue(fc, m)
+		if hs == nil {
 			ms.all = true
 			continue
 		}
-		for n, s := range names {
-			ms.heaps[n] = s
+		for n, s := range hs {
+			ms.addSite(n, s, modSite{fc: fc, args: args, names: names, item: m})
 		}
 	}
+}
+
+// evalInv evaluates an SSA value at the loop head if it does not depend on
+// anything the loop modifies.
+func (fr *Frame) evalInv(v ssa.Value, in *State, ms *modSet, depth int) (Val, bool) {
+	ex := fr.ex
+	if depth > 12 {
+		return nil, false
+	}
+	switch x := v.(type) {
+	case *ssa.Const:
+		return ex.constVal(x), true
+	case *ssa.Global:
+		return GlobalAddr{x}, true
+	case *ssa.Parameter, *ssa.FreeVar:
+		r, ok := fr.regs[v]
+		return r, ok
+	case *ssa.Alloc:
+		if fr.direct[x] {
+			return LocalAddr{x}, true
+		}
+		r, ok := fr.regs[v]
+		return r, ok
+	case *ssa.UnOp:
+		if x.Op.String() != "*" {
+			return nil, false
+		}
+		addr, ok := fr.evalInv(x.X, in, ms, depth+1)
+		if !ok {
+			return nil, false
+		}
+		switch a := addr.(type) {
+		case LocalAddr:
+			if ms.locals[a.A] {
+				return nil, false
+			}
+			cur, ok := in.locals[a.A]
+			return cur, ok
+		case FieldAddrV:
+			if _, mod := ms.heaps[ex.fieldHeapName(a.Fld)]; mod || ms.all {
+				return nil, false
+			}
+			if _, scalar := ex.cx.sortOf(a.Fld.Type()); !scalar {
+				return nil, false
+			}
+			return ex.loadField(in, a.Obj, a.Fld), true
+		}
+		return nil, false
+	case *ssa.FieldAddr:
+		base, ok := fr.evalInv(x.X, in, ms, depth+1)
+		if !ok {
+			return nil, false
+		}
+		stt := x.X.Type().Underlying().(*types.Pointer).Elem().Underlying().(*types.Struct)
+		obj, ok := ex.materialize(base)
+		if !ok {
+			return nil, false
+		}
+		return FieldAddrV{Obj: obj, Fld: stt.Field(x.Field)}, true
+	case *ssa.Slice:
+		// the backing array is that of the operand
+		b, ok := fr.evalInv(x.X, in, ms, depth+1)
+		if !ok {
+			return nil, false
+		}
+		if _, isSl := x.X.Type().Underlying().(*types.Slice); isSl {
+			return b, true
+		}
+		// slice of *array: base is the array address
+		ref, ok := ex.materialize(b)
+		if !ok {
+			return nil, false
+		}
+		z := ex.izero()
+		return Sc{app(SSlice, "mkslice", ref, z, z, z)}, true
+	}
+	// registers defined before the loop (dominating) keep their value
+	if r, ok := fr.regs[v]; ok {
+		if ins, isIns := v.(ssa.Instruction); isIns && ms.region != nil && !ms.region[ins.Block()] {
+			return r, true
+		}
+	}
+	return nil, false
+}
+
+// siteTargets: the references a known write site may modify in heap `name`.
+func (fr *Frame) siteTargets(name string, site modSite, in *State, ms *modSet) ([]Term, bool) {
+	ex := fr.ex
+	if site.fc == nil {
+		v, ok := fr.evalInv(site.base, in, ms, 0)
+		if !ok {
+			return nil, false
+		}
+		switch {
+		case len(name) > 2 && name[:2] == "A!":
+			switch t := site.base.Type().Underlying().(type) {
+			case *types.Slice:
+				return []Term{app(SRef, "sarr", v.(Sc).T)}, true
+			case *types.Pointer:
+				_ = t
+				ref, ok := ex.materialize(v)
+				return []Term{ref}, ok
+			}
+			return nil, false
+		default:
+			ref, ok := ex.materialize(v)
+			if !ok {
+				return nil, false
+			}
+			return []Term{ref}, true
+		}
+	}
+	// contract modifies item, evaluated in the loop-entry state
+	env := ex.specEnv(nil, in, in)
+	for i, n := range site.names {
+		if i >= len(site.args) {
+			break
+		}
+		v, ok := fr.evalInv(site.args[i], in, ms, 0)
+		if !ok {
+			// only needed if the item mentions it
+			continue
+		}
+		env.vars[n] = SVal{V: v, T: site.args[i].Type()}
+	}
+	allowed := map[string][]Term{}
+	elemBases := map[string][]Term{}
+	whole := map[string]bool{}
+	nUnsup := len(ex.cx.unsupported)
+	ex.readLog = map[string]bool{}
+	ex.lvalueTargets(env, site.item, allowed, elemBases, whole)
+	reads := ex.readLog
+	ex.readLog = nil
+	if len(ex.cx.unsupported) != nUnsup {
+		// evaluation failed (e.g. an argument was not invariant): not an error here
+		ex.cx.unsupported = ex.cx.unsupported[:nUnsup]
+		return nil, false
+	}
+	for h := range reads {
+		if _, mod := ms.heaps[h]; mod || ms.all {
+			return nil, false
+		}
+	}
+	if len(elemBases[name]) > 0 || whole[name] {
+		return nil, false
+	}
+	return allowed[name], true
 }
 
 // enterLoop: assert the invariant on entry, havoc the loop's modified set,
@@ -248,33 +496,76 @@ func (fr *Frame) enterLoop(head *ssa.BasicBlock, ord int, in *State) *State {
 	}
 	// 2. havoc
 	ms := newModSet()
+	ms.region = fr.loops.body[head]
 	ex.scanMods(fr.fn, fr.loops.body[head], ms, 0)
 	st := in.clone()
 	for a := range ms.locals {
-		if old, ok := st.locals[a]; ok {
+		if _, ok := st.locals[a]; ok {
 			et := a.Type().Underlying().(*types.Pointer).Elem()
-			_ = old
 			st.locals[a] = ex.havocVal("lp_"+a.Comment, et)
 		}
 	}
 	if ms.all || ms.maps {
 		for n, s := range ex.cx.heapSorts {
 			if ms.all || isMapHeap(n) {
-				ms.heaps[n] = s
+				ms.addCoarse(n, s)
 			}
 		}
 	}
-	for n, s := range ms.heaps {
-		st.heaps[n] = ex.cx.fresh("lh_"+n, s)
+	for srt := range ms.ptrSorts {
+		for n, s := range ex.cx.heapSorts {
+			if len(n) > 2 && n[:2] == "F!" && elemSortOf(s) == srt {
+				ms.addCoarse(n, s)
+			}
+		}
+	}
+	apIn := ex.varOf(in, "allocptr", SInt)
+	for _, n := range sortedKeys(ms.heaps) {
+		s := ms.heaps[n]
 		ex.cx.heapSorts[n] = s
+		if ms.all || ms.coarse[n] {
+			st.heaps[n] = ex.cx.fresh("lh_"+n, s)
+			continue
+		}
+		h := ex.heap(in, n, s)
+		precise := true
+		var targets []Term
+		seen := map[string]bool{}
+		for _, site := range ms.sites[n] {
+			ts, ok := fr.siteTargets(n, site, in, ms)
+			if !ok {
+				precise = false
+				break
+			}
+			for _, t := range ts {
+				if !seen[t.S] {
+					seen[t.S] = true
+					targets = append(targets, t)
+				}
+			}
+		}
+		if !precise {
+			st.heaps[n] = ex.cx.fresh("lh_"+n, s)
+			continue
+		}
+		for _, t := range targets {
+			h = store(h, t, ex.cx.fresh("lt_"+n, elemSortOf(s)))
+		}
+		if ms.freshW[n] {
+			// objects allocated inside the loop may differ; older ones keep h
+			nh := ex.cx.fresh("lf_"+n, s)
+			ex.cx.assume(Term{fmt.Sprintf("(forall ((r!l Ref)) (! (=> %s (= (select %s r!l) (select %s r!l))) :pattern ((select %s r!l))))",
+				ex.refOldStrict(Term{"r!l", SRef}, apIn).S, nh.S, h.S, nh.S), SBool})
+			h = nh
+		}
+		st.heaps[n] = ex.cx.name("h", h)
 	}
 	if ms.all {
 		ex.cx.note("loop %d of %s: unknown effects, every heap havoced", ord, fr.fn.Name())
 	}
 	if ms.alloc || ms.all {
-		ap := ex.varOf(st, "allocptr", SInt)
 		nap := ex.cx.fresh("allocptr", SInt)
-		ex.cx.assume(app(SBool, ">=", nap, ap))
+		ex.cx.assume(app(SBool, ">=", nap, apIn))
 		st.vars["allocptr"] = nap
 	}
 	for n, t := range st.vars {
@@ -288,6 +579,14 @@ func (fr *Frame) enterLoop(head *ssa.BasicBlock, ord int, in *State) *State {
 		env.loopEntry = in
 		g := env.evalBool(cl.Expr)
 		ex.cx.assume(implies(st.reach, g))
+	}
+	if fr.isTop && ex.fc != nil {
+		for _, cl := range ex.fc.LoopAssume[ord] {
+			env := ex.specEnv(fr, st, ex.entry)
+			env.loopEntry = in
+			ex.cx.assume(implies(st.reach, env.evalBool(cl.Expr)))
+			ex.cx.note("assumed without proof at loop %d of %s: %s", ord, ex.cx.fnName, cl.Src)
+		}
 	}
 	if dec != nil {
 		env := ex.specEnv(fr, st, ex.entry)
@@ -305,7 +604,7 @@ func labelSuffix(cl *Clause) string {
 	if cl.Label != "" {
 		return ":" + cl.Label
 	}
-	return ""
+	return fmt.Sprintf(":L%d", cl.Line)
 }
 
 // closeLoop: at a back edge the invariant must hold again and the variant
